@@ -4,7 +4,7 @@
 
    trace lines (ndjson); every case starts with a reset:
      {"ev":"reset","case":n,"hdr":{"kind":"rt"}}                      one message through the library round trip
-     {"ev":"rt","m":M,"p1":P,"w1":W,"p2":P,"w2":W2,"wx":[X,...]}
+     {"ev":"rt","m":M,"p1":P,"w1":W,"p2":P,"w2":W2,"wx":[X,...],"ww":[D,...]}
          M  = original fields: weid wsid wtms ueh msbf (bool) vers mcnt micros payLen len (int)
               ecuSto ecuStd sid tmsp secs (4 bytes, [] if absent) ext (10 bytes or []) pay ([hash,hash'])
          P  = {"ok":b,"consumed":k,"v":VIEW}   result of parse_dlt_with_storage_header (p1: original bytes, p2: bytes of w1)
@@ -15,6 +15,12 @@
               the parsed message written through DltStandardHeader::to_write directly WITH its ECU id (weid) and / or a
               session id (wsid) in the standard header, behind the storage header of w1; p = parse of those bytes,
               w = DltMessage::to_write of that re-read message compared with w1 (only variants that fit the len field)
+         D  = {"path":"msg"|"std","weid":b,"wsid":b,"writer":"chunk"|"intr"|"fail"|"buf","k":k,"limit":n,"ok":b,"ref_len":t,
+               "arrived":a,"equal":b,"prefix":b}
+              the parsed message written by DltMessage::to_write (msg) / DltStandardHeader::to_write (std, with weid / wsid)
+              into a destination that accepts at most k bytes per call / interrupts / fails after `limit` accepted bytes
+              (99999999 = never) / is a BufWriter of capacity k; ref_len = bytes the same call wrote into a Vec, arrived =
+              bytes at the destination, equal = they are those bytes, prefix = they are a prefix of them
      {"ev":"reset","case":n,"hdr":{"kind":"file","n":N}}              one generated file through `adlt convert -o`
      {"ev":"fmsg","i":i,"m":M,"v":VIEW}        i-th message of the exported file next to the i-th original
      {"ev":"fend","rc1":c,"rc2":c,"n_out":k,"trailing":t,"second_identical":b}
@@ -69,13 +75,16 @@ WxOk(e, x) == L!FitsX(L!ParseView(e.m), x.weid, x.wsid) =>
                  /\ x.w.ok /\ x.w.equal
 RtOk(e) == /\ L!WellFormed(e.m)                          \* the driver stayed inside the domain
            /\ (e.m.vers = 1 => e.p1.ok)
-           /\ (e.p1.ok => OrigOk(e) /\ RoundTripOk(e) /\ \A i \in 1..Len(e.wx) : WxOk(e, e.wx[i]))
+           /\ (e.p1.ok => /\ OrigOk(e) /\ RoundTripOk(e) /\ \A i \in 1..Len(e.wx) : WxOk(e, e.wx[i])
+                          /\ \A i \in 1..Len(e.ww) : LET d == e.ww[i] IN L!DestOk(d.ref_len, d.limit, d.ok, d.arrived, d.equal))
 \* design drift only: the writer's choice of flags / len against Layout's normal form
 NormalFormSeen(e) == LET w == L!Write(L!ParseView(e.m)) IN
                        /\ e.w1.htyp = L!htyp(w) /\ e.w1.len = w.len /\ e.w1.bytes = L!WrittenBytes(L!ParseView(e.m))
                        /\ e.p1.v.htyp = L!htyp(e.m)          \* the parser keeps the header byte verbatim (design, not contract)
                        /\ \A i \in 1..Len(e.wx) : LET x == e.wx[i]  wx == L!WriteX(L!ParseView(e.m), x.weid, x.wsid, <<>>) IN
                              L!FitsX(L!ParseView(e.m), x.weid, x.wsid) => (x.htyp = L!htyp(wx) /\ x.len = wx.len)
+                       \* a failing destination holds exactly what it accepted, a prefix of the message (design, not contract)
+                       /\ \A i \in 1..Len(e.ww) : LET d == e.ww[i] IN d.limit < d.ref_len => (d.prefix /\ d.arrived = d.limit)
 
 Rt == /\ Ev("rt") /\ phase = "running" /\ hdr.kind = "rt"
       /\ RtOk(Cur)
